@@ -79,7 +79,10 @@ partial def storeLoop (stdin : IO.FS.Stream) (st : StoreSt) : IO Unit := do
     IO.println s!"STAT\t{st.id}\t{st.backend}\t{hash st.id}\t1\t{st.backend}:{st.ops}"
     match storeFinish st with
     | some m => IO.println s!"MON\t{st.id}\t{m}"
-    | none => IO.println s!"OK\t{st.id}"
+    | none =>
+      match st.diff with
+      | some m => IO.println s!"DIFF\t{st.id}\t{m}"
+      | none => IO.println s!"OK\t{st.id}"
     storeLoop stdin {}
   else storeLoop stdin (storeLine st line)
 
